@@ -23,6 +23,7 @@ EventApply(p, e) ==
     [] e.ev = "set" ->
          LET p1 == [p EXCEPT !.set = TRUE] IN [p |-> p1, bad |-> ENames(EvObs(p1, e))]
     [] e.ev = "creq" -> [p |-> [p EXCEPT !.creq = @ \cup {e.t}], bad |-> {}]
+    [] e.ev = "cdone" -> [p |-> [p EXCEPT !.creq = @ \ {e.t}], bad |-> {}]   \* t's scope absorbed the request; t carries on
     [] e.ev = "quiescent" ->
          LET cl == [AllReleasedAfterSet |-> p.set => p.inprog = {},
                     WaitingCountTrue |-> e.waiting <= Cardinality(p.inprog)] IN
